@@ -44,7 +44,7 @@ func c05Gen(r *rand.Rand, tier string, mode string) []Case {
 		var snaps []int
 		nextID := 0
 		refund := int64(0)
-		unmirrored := withBank && r.Intn(12) == 0
+		unmirrored := false // every code path that moves coins under the StateDB calls SyncBalances (after fix c.f. known_findings)
 		warm := r.Intn(2) == 0
 		if warm {
 			for a := 0; a < c05N; a++ {
@@ -141,15 +141,23 @@ func c05Gen(r *rand.Rand, tier string, mode string) []Case {
 					// the account a precompile moves coins of is its caller: an executing contract, so its object is loaded
 					c = append(c, fmt.Sprintf("accaddr %d", a%3), fmt.Sprintf("setstate %d 0 %d", a%3, r.Intn(4)), "commit")
 					snaps = nil
-					if unmirrored && r.Intn(3) == 0 {
-						c = append(c, fmt.Sprintf("bank %d %s %d", a%3, sign, amt))
-					} else {
-						c = append(c, fmt.Sprintf("bankm %d %s %d", a%3, sign, amt))
-						if sign == "+" {
-							cache[a%3] += amt
-						} else {
-							cache[a%3] -= amt
+					// what a precompile does: the Cosmos message moves coins of any accounts, then SyncBalances
+					for m := 0; m < 1+r.Intn(3); m++ {
+						who := r.Intn(c05N)
+						if who >= 3 && sign == "-" {
+							who = who % 3
 						}
+						c = append(c, fmt.Sprintf("bank %d %s %d", who, sign, amt))
+						if sign == "+" {
+							cache[who] += amt
+						} else {
+							cache[who] -= amt
+						}
+						sign = pick(r, []string{"+", "-"})
+						amt = int64(1 + r.Intn(50))
+					}
+					if !unmirrored || r.Intn(3) != 0 {
+						c = append(c, "sync")
 					}
 				}
 			}
@@ -234,7 +242,7 @@ func init() {
 		NonTrivial: func(tags []string) bool {
 			return hasTag(tags, "commit-with-dirty") || hasTag(tags, "ptx-ok")
 		},
-		Rule: "(a) balance histories on the real StateDB over the application's EVM keeper and bank: value transfers, round trips that return balances to their loaded values across a flush, storage/nonce writes, snapshots and reverts, Commit in the middle (precompile entry), bank movements against an outside pool mirrored by AddBalance/SubBalance as the precompiles do for their caller (1 case in 12 also contains unmirrored movements, marked bankraw); after every Commit the supply and every bank balance are compared with the EVM's view; (b) real signed Ethereum transactions to the script-interpreting contract with value, payments, delegations of the origin's coins by grant and of the contract's own coins, nested and reverted frames; supply and the bank balances of origin, contract and payee are compared with the property's reading of the script; non-trivial = a commit with dirty accounts / an executed puppet transaction; distinct = distinct op sequences",
+		Rule: "(a) balance histories on the real StateDB over the application's EVM keeper and bank: value transfers, round trips that return balances to their loaded values across a flush, storage/nonce writes, snapshots and reverts, Commit in the middle (precompile entry), Cosmos-side bank movements of arbitrary accounts (cached or not, dirty or not) against an outside pool followed by SyncBalances, as the stateful precompiles do; after every Commit the supply and every bank balance are compared with the EVM's view; (b) real signed Ethereum transactions to the script-interpreting contract with value, payments, delegations of the origin's coins by grant and of the contract's own coins, nested and reverted frames; supply and the bank balances of origin, contract and payee are compared with the property's reading of the script; non-trivial = a commit with dirty accounts / an executed puppet transaction; distinct = distinct op sequences",
 	})
 }
 
@@ -379,6 +387,10 @@ func c05Exec(c Case, prop string) (outs []string, fails []Failure, tags []string
 				out = "ok"
 			case "noop":
 				out = "ok"
+			case "sync":
+				env.db.SyncBalances()
+				env.rawBank = false
+				out = "ok"
 			case "selfdestruct":
 				if env.db.HasSuicided(ad(2)) || !env.db.Exist(ad(1)) {
 					c[i] = "noop"
@@ -448,7 +460,7 @@ func c05Exec(c Case, prop string) (outs []string, fails []Failure, tags []string
 					if len(bad) > 0 {
 						sig := "C02:commit:bank-diverges-from-evm-view"
 						if env.rawBank {
-							sig = "C02:unmirrored-bank-movement-of-cached-account:overwritten-by-commit"
+							sig = "C02:bank-movement-without-SyncBalances:overwritten-by-commit"
 						}
 						fails = append(fails, Failure{Signature: sig, What: "after Commit: " + strings.Join(bad, "; "), Case: c[:i+1]})
 					}
@@ -488,7 +500,7 @@ func c05Exec(c Case, prop string) (outs []string, fails []Failure, tags []string
 				out = "skip"
 				c05Ptx(f, prop, c[i:i+1], &fails, &tags)
 			case "bank":
-				env.rawBank = true
+				env.rawBank = true // until the next sync
 				a := sdk.AccAddress(ad(1).Bytes())
 				if f[2] == "-" {
 					if cur := app.BankKeeper.GetBalance(env.ctx, a, denom).Amount.BigInt(); arg(3).Cmp(cur) > 0 {
